@@ -187,6 +187,9 @@ class TlcResult:
                 res.append(json.loads(s))
             except json.JSONDecodeError:
                 pass
+        # TLC's workers print in whatever order they get there: a canonical order makes the seeded samples
+        # the tiers draw from these lists the same from run to run
+        res.sort(key=lambda c: json.dumps(c, sort_keys=True))
         return res
 
     def sched_lines(self):
@@ -197,6 +200,7 @@ class TlcResult:
                 res.append(json.loads(s))
             except json.JSONDecodeError:
                 pass
+        res.sort(key=lambda c: json.dumps(c, sort_keys=True))
         return res
 
 
